@@ -1007,7 +1007,15 @@ func TestVerifC10(t *testing.T) {
 	w.run([]c10Step{w.stepRaw(c10Raw{op: "3", proto: "-", client: "-", phantom: "-", dport: "-", sport: "-", timeout: "-"})}, true)
 
 	w.admittedEnumeration(r)
+	tPhase := time.Now()
 	w.histories(vlib.NewRand("C10-histories"))
+	dHist := time.Since(tPhase)
+	tPhase = time.Now()
+	w.stopScenarios(vlib.NewRand("C10-shutdown"))
+	dStop := time.Since(tPhase)
+	tPhase = time.Now()
+	w.availScenarios(vlib.NewRand("C10-availability"))
+	out.Note(fmt.Sprintf("history phase %.1fs, shutdown scenarios %.1fs, availability scenarios %.1fs", dHist.Seconds(), dStop.Seconds(), time.Since(tPhase).Seconds()))
 	w.rawExhaustive()
 	w.directRandom(r, vlib.Budget(8000, 150000))
 	w.rawRandom(r, vlib.Budget(8000, 150000))
@@ -1070,7 +1078,10 @@ func c10Replay(w *c10World, path string) {
 				// a whole history of the registry next to the detector (zz_verif_c10_hist_test.go): runs,
 				// records and judges itself
 				w.histReplay(s)
-			case f[0] == "markactive", f[0] == "(wrapper)", f[0] == "(scenario)", f[0] == "(hist)":
+			case f[0] == "stop":
+				// a station scenario (pipeline, shutdown sequence, availability of the channel: zz_verif_c10_stop_test.go)
+				w.stopReplay(s)
+			case f[0] == "markactive", f[0] == "(wrapper)", f[0] == "(scenario)", f[0] == "(hist)", f[0] == "(stop)":
 				// performed as part of the wrapper / scenario / history step it belongs to
 			case strings.HasPrefix(f[0], "shutdown-"):
 				steps = append(steps, w.shutdownScenario(f[0])...)
@@ -1335,6 +1346,26 @@ func TestVerifC10Gen(t *testing.T) {
 	fmt.Fprintf(&sb, "def mainDefersCleanup : Bool := %v\n", facts.defersCleanup && facts.deferBeforeGo)
 	sb.WriteString("/-- calls in `main`, lexically after that `go` statement, that end the process without running deferred\ncalls (`os.Exit`, `*.Fatal*`, `runtime.Goexit`, `panic`) -/\n")
 	fmt.Fprintf(&sb, "def mainExitsAfterStart : List String := [%s]\n", strings.Join(ex, ", "))
+	// ---- the ingest pipeline and main's wait (go/ast)
+	pf, err := c10PipelineFacts()
+	if err != nil {
+		t.Fatal(err)
+	}
+	var ac []string
+	for _, a := range pf.asyncIngestCalls {
+		ac = append(ac, strconv.Quote(a))
+	}
+	sb.WriteString("\n/-- `startIngestThread` / `ingestRegistration`: `go` statements under which a registration is ingested, tracked,\nvalidated or announced (such a goroutine is not counted by the wait groups `main` waits on) -/\n")
+	fmt.Fprintf(&sb, "def asyncIngestCalls : List String := [%s]\n", strings.Join(ac, ", "))
+	sb.WriteString("/-- `HandleRegUpdates` starts with `defer <parent>.Done()`, launches every worker as `W.Add(1); go …startIngestThread(…, W)` and\nends with `W.Wait()`; `startIngestThread` defers `Done()` on its wait group and calls `ingestRegistration`, which calls\n`AddRegistration` -/\n")
+	fmt.Fprintf(&sb, "def workersCounted : Bool := %v\n", pf.workersCounted)
+	sb.WriteString("/-- `main`: `W.Add(1); go X.HandleRegUpdates(ctx, …, W)` and later, as top-level statements in this order, the cancel function\nof `ctx` and `W.Wait()` (the deferred `Cleanup()` runs after them) -/\n")
+	fmt.Fprintf(&sb, "def mainWaitsForPipeline : Bool := %v\n", pf.mainWaitsForPipeline)
+	var why []string
+	for _, y := range pf.why {
+		why = append(why, strconv.Quote(y))
+	}
+	fmt.Fprintf(&sb, "/-- what the extractor did not find (empty when the two facts above hold) -/\ndef pipelineFactsMissing : List String := [%s]\n", strings.Join(why, ", "))
 	sb.WriteString("\nend CJ.Gen.C10\n")
 	dir := os.Getenv("VERIF_OUT")
 	if dir == "" {
